@@ -107,12 +107,7 @@ class Rewriter(ast.NodeTransformer):
                 args = []
                 for a in node.args:
                     cur = self.visit(copy.deepcopy(a))
-                    self.in_old += 1
-                    try:
-                        o = self.visit(copy.deepcopy(a))
-                    finally:
-                        self.in_old -= 1
-                    args.append(ast.Call(func=ast.Name(id='_same_content', ctx=ast.Load()), args=[cur, o], keywords=[]))
+                    args.append(ast.Call(func=ast.Name(id='_unchanged', ctx=ast.Load()), args=[cur], keywords=[]))
                 return ast.BoolOp(op=ast.And(), values=args + [ast.Constant(value=True)])
         return self.generic_visit(node)
 
@@ -160,6 +155,48 @@ def _same_content(a, b):
         return a is b
 
 
+def signature(o):
+    """shallow content of an object: scalars by value, references by identity"""
+    def atom(x):
+        if x is None or isinstance(x, (int, float, str, bool, np.integer, np.floating)):
+            return ('v', x if not isinstance(x, float) or x == x else 'nan')
+        return ('id', id(x))
+    if isinstance(o, np.ndarray):
+        return ('nd', o.shape, o.tobytes())
+    if isinstance(o, (list, tuple)):
+        return ('seq', tuple(atom(x) for x in o))
+    if isinstance(o, (set, frozenset)):
+        return ('set', tuple(sorted(o)))
+    if isinstance(o, dict):
+        return ('dict', tuple((k, atom(v)) for k, v in o.items()))
+    if hasattr(o, '__dict__'):
+        return ('obj', tuple((k, atom(v)) for k, v in sorted(vars(o).items())))
+    return ('other', repr(o))
+
+
+def snapshot(objs):
+    """id -> shallow signature of every object reachable from objs (taken before the call)"""
+    snap = {}
+    stack = list(objs)
+    keep = []
+    while stack:
+        o = stack.pop()
+        if o is None or isinstance(o, (int, float, str, bool)) or id(o) in snap:
+            continue
+        snap[id(o)] = signature(o)
+        keep.append(o)
+        if isinstance(o, (list, tuple)):
+            stack.extend(o)
+        elif isinstance(o, dict):
+            stack.extend(o.values())
+        elif isinstance(o, np.ndarray):
+            pass
+        elif hasattr(o, '__dict__'):
+            stack.extend(vars(o).values())
+    snap['__keep__'] = keep
+    return snap
+
+
 def reachable_ids(objs):
     seen = set()
     stack = list(objs)
@@ -186,8 +223,19 @@ class Evaluator:
         self.bound = bound
         self.cache = {}
 
-    def namespace(self, args, old, result, pre_ids, extra=None):
+    def namespace(self, args, old, result, pre_ids, extra=None, snap=None, back=None):
         bound = [self.bound]
+        snap = snap or {}
+        back = back or {}
+
+        def canon(x):
+            return back.get(id(x), x)
+
+        def _unchanged(x):
+            if x is None:
+                return True
+            sig = snap.get(id(x))
+            return sig is None or sig == signature(x)
 
         def rng(lo, hi):
             return range(int(lo), int(hi))
@@ -223,7 +271,10 @@ class Evaluator:
             return id(x) not in pre_ids
 
         def same(a, b):
-            return a is b
+            return canon(a) is canon(b)
+
+        def allocated(x):
+            return x is not None
 
         def isnone(x):
             return x is None
@@ -231,13 +282,22 @@ class Evaluator:
         def psum(xs, n):
             return sum(xs[:int(n)]) if n > 0 else 0
 
+        def cnt(xs, k, p):
+            return sum(1 for q in range(int(p)) if xs[q] == k)
+
+        def in_set(x, s_):
+            return x in s_
+
+        def sizes(labels, K):
+            return [sum(1 for l in labels if l == k) for k in range(K)]
+
         def eqcontent(a, b):
             return _same_content(a, b)
 
         def let(v, f):
             return f(v)
 
-        ns = dict(forall=forall, exists=exists, fresh=fresh, same=same, isnone=isnone, psum=psum,
+        ns = dict(cnt=cnt, in_set=in_set, sizes=sizes, forall=forall, exists=exists, fresh=fresh, same=same, allocated=allocated, _unchanged=_unchanged, isnone=isnone, psum=psum,
                   eqcontent=eqcontent, let=let, real=float, _cmp=_cmp, _same_content=_same_content,
                   _OLD=old, len=len, abs=abs, min=min, max=max, int=int, float=float, np=np, math=math,
                   result=result)
